@@ -42,3 +42,59 @@ package evaluator
 //@     bound runes(str(v0))
 
 //@ ghost unitWindow(s Str, a Int, b Int) Str = mkstr(base(s), roff(s, ridx(s, lo(s)) + a), roff(s, ridx(s, lo(s)) + b))
+
+//@ func sliceStep
+//@   tags C12 C03 C06 C09
+//@   requires step.nonzero: step != 0
+//@   ensures[C12 C01] other: !isArr(v) && !isStr(v) ==> result == nil
+//@   ensures[C12] arr.kind: isArr(v) ==> isArr(result) && fresh(arr(result))
+//@   ensures[C12] arr.len: isArr(v) ==> len(arr(result)) == pyLen(pyStart(len(arr(v)), start, step), pyStop(len(arr(v)), stop, step), step)
+//@   ensures[C12] arr.elems: isArr(v) ==> (forall k Int :: 0 <= k && k < len(arr(result)) ==> arr(result)[k] == arr(v)[pyStart(len(arr(v)), start, step) + k * step])
+//@   ensures[C12 C11] str.kind: isStr(v) ==> isStr(result)
+//@   ensures[C12 C11] str.count: isStr(v) ==> runes(str(result)) == pyLen(pyStart(runes(str(v)), start, step), pyStop(runes(str(v)), stop, step), step)
+//@   loop 1
+//@     invariant 0 <= i && i <= n && n == len(r) && fresh(r) && soffZero(r)
+//@     invariant n == pyLen(pyStart(l, start0, step), pyStop(l, stop0, step), step) && start == pyStart(l, start0, step) && l == len(a)
+//@     invariant forall k Int :: 0 <= k && k < n ==> 0 <= start + k * step && start + k * step < l
+//@     invariant i < n ==> j == start + i * step
+//@     invariant forall k Int :: 0 <= k && k < i ==> r[k] == a[start + k * step]
+//@     decreases n - i
+//@     bound len(arr(v0))
+//@ ghost soffZero(s Slice) Bool = true
+//@ func sliceStep
+//@   loop 2
+//@     invariant 0 <= i && i <= start && start <= l && l == runes(str(v0)) && n <= l && subwindow(s, str(v0))
+//@     invariant n == pyLen(pyStart(l, start0, step), pyStop(l, stop0, step), step)
+//@     invariant bldRunes(b) == 0 && bldOk(b)
+//@     decreases start - i
+//@     bound runes(str(v0))
+//@   loop 3
+//@     invariant 0 <= i && i <= n && l == runes(str(v0)) && n <= l && subwindow(s, str(v0))
+//@     invariant n == pyLen(pyStart(l, start0, step), pyStop(l, stop0, step), step)
+//@     invariant bldRunes(b) == i && bldOk(b)
+//@     decreases n - i
+//@     bound runes(str(v0))
+//@   loop 4
+//@     invariant 0 <= i && i < n && l == runes(str(v0)) && n <= l && subwindow(s, str(v0)) && 1 <= j
+//@     invariant n == pyLen(pyStart(l, start0, step), pyStop(l, stop0, step), step)
+//@     invariant bldRunes(b) == i + 1 && bldOk(b)
+//@     decreases len(s)
+//@     bound len(str(v0))
+//@   loop 5
+//@     invariant start <= i && i <= l - 1 && 0 - 1 <= start && l == runes(str(v0)) && n <= l && subwindow(s, str(v0))
+//@     invariant n == pyLen(pyStart(l, start0, step), pyStop(l, stop0, step), step)
+//@     invariant bldRunes(b) == 0 && bldOk(b)
+//@     decreases i - start
+//@     bound runes(str(v0))
+//@   loop 6
+//@     invariant 0 <= i && i <= n && l == runes(str(v0)) && n <= l && subwindow(s, str(v0))
+//@     invariant n == pyLen(pyStart(l, start0, step), pyStop(l, stop0, step), step)
+//@     invariant bldRunes(b) == i && bldOk(b)
+//@     decreases n - i
+//@     bound runes(str(v0))
+//@   loop 7
+//@     invariant 0 <= i && i < n && l == runes(str(v0)) && n <= l && subwindow(s, str(v0)) && j <= 0 - 1
+//@     invariant n == pyLen(pyStart(l, start0, step), pyStop(l, stop0, step), step)
+//@     invariant bldRunes(b) == i + 1 && bldOk(b)
+//@     decreases len(s)
+//@     bound len(str(v0))
